@@ -1221,4 +1221,37 @@ theorem fouts_xstep {α : Type} (ar : Registry → VExpr → α) (s : CState) (o
   | nil => rfl
   | cons op ops ih => simp only [fouts, xoutputs]; rw [ih]
 
+/-! ### sessions reporting WHICH exception a failing query raises (uninterpreted `ed`) -/
+
+/-- the outcomes and failure details of a history when every step is asked on a database freshly built
+from the registrations made so far -/
+def yfreshOutputs {α δ : Type} (ar : Registry → VExpr → α) (ed : Registry → Query → δ) (r : Registry) :
+    List XOp → List (XOut α × Option δ)
+  | [] => []
+  | op :: ops =>
+    (ystep lg ar ed (CState.fresh r) op).2 :: yfreshOutputs ar ed (xstep lg ar (CState.fresh r) op).1.reg ops
+
+theorem fouts_ystep {α δ : Type} (ar : Registry → VExpr → α) (ed : Registry → Query → δ) (s : CState)
+    (ops : List XOp) : fouts (ystep lg ar ed) s ops = youtputs lg ar ed s ops := by
+  induction ops generalizing s with
+  | nil => rfl
+  | cons op ops ih => simp only [fouts, youtputs]; rw [ih]
+
+/-- the first components of the detailed outputs are the plain outputs -/
+theorem youtputs_fst {α δ : Type} (ar : Registry → VExpr → α) (ed : Registry → Query → δ) (s : CState)
+    (ops : List XOp) : (youtputs lg ar ed s ops).map (·.1) = xoutputs lg ar s ops := by
+  induction ops generalizing s with
+  | nil => rfl
+  | cons op ops ih => simp only [youtputs, xoutputs, List.map_cons, ystep]; rw [← ih]
+
+/-- the registry after one step on a fresh state is the registry after the step on any state over the same registry -/
+theorem xstep_reg_fresh {α : Type} (ar : Registry → VExpr → α) (s : CState) (op : XOp) :
+    (xstep lg ar (CState.fresh s.reg) op).1.reg = (xstep lg ar s op).1.reg := by
+  cases op with
+  | arith e => rfl
+  | base op =>
+    cases op with
+    | query q => simp only [xstep, cstep, answer_reg]; rfl
+    | reg op => simp only [xstep, (cstep_reg_out lg _ op).2]; rfl
+
 end Barril.Reg
